@@ -9,7 +9,6 @@ import (
 	"path/filepath"
 	"strings"
 
-	"github.com/JunNishimura/Goit/internal/file"
 	"github.com/spf13/cobra"
 )
 
@@ -55,32 +54,25 @@ var rmCmd = &cobra.Command{
 
 		// remove file from working tree and index
 		for _, arg := range args {
-			// if the arg is directory
-			if f, err := os.Stat(arg); !os.IsNotExist(err) && f.IsDir() {
-				// get file paths under directory
-				absPath, err := filepath.Abs(arg)
-				if err != nil {
-					return fmt.Errorf("fail to convert %s to abs path: %w", arg, err)
-				}
-				filePaths, err := file.GetFilePathsUnderDirectory(absPath)
-				if err != nil {
-					return fmt.Errorf("fail to get file paths under directory: %w", err)
+			cleanedArg := filepath.Clean(arg)
+			cleanedArg = strings.ReplaceAll(cleanedArg, `\`, "/")
+
+			if _, _, isRegistered := client.Idx.GetEntry([]byte(cleanedArg)); isRegistered {
+				// remove from the working tree
+				if err := removeFromWorkingTree(cleanedArg); err != nil {
+					return err
 				}
 
-				// filePaths are defined as abs paths
-				// so, translate them to rel paths
-				var relPaths []string
-				curPath, err := os.Getwd()
-				if err != nil {
-					return fmt.Errorf("fail to get current directory: %w", err)
+				// remove from the index
+				if err := client.Idx.DeleteEntry(client.RootGoitPath, []byte(cleanedArg)); err != nil {
+					return fmt.Errorf("fail to delete '%s' from the index: %w", cleanedArg, err)
 				}
-				for _, filePath := range filePaths {
-					relPath, err := filepath.Rel(curPath, filePath)
-					if err != nil {
-						return fmt.Errorf("fail to get relative path: %w", err)
-					}
-					cleanedRelPath := strings.ReplaceAll(relPath, `\`, "/")
-					relPaths = append(relPaths, cleanedRelPath)
+			} else {
+				// the arg is directory
+				// copy paths since DeleteEntry changes the index entries
+				var relPaths []string
+				for _, entry := range client.Idx.GetEntriesByDirectory(cleanedArg) {
+					relPaths = append(relPaths, string(entry.Path))
 				}
 
 				// remove
@@ -94,19 +86,6 @@ var rmCmd = &cobra.Command{
 					if err := client.Idx.DeleteEntry(client.RootGoitPath, []byte(relPath)); err != nil {
 						return fmt.Errorf("fail to delete '%s' from the index: %w", relPath, err)
 					}
-				}
-			} else {
-				cleanedArg := filepath.Clean(arg)
-				cleanedArg = strings.ReplaceAll(cleanedArg, `\`, "/")
-
-				// remove from the working tree
-				if err := removeFromWorkingTree(cleanedArg); err != nil {
-					return err
-				}
-
-				// remove from the index
-				if err := client.Idx.DeleteEntry(client.RootGoitPath, []byte(cleanedArg)); err != nil {
-					return fmt.Errorf("fail to delete '%s' from the index: %w", cleanedArg, err)
 				}
 			}
 		}
